@@ -300,10 +300,24 @@ func (d *Driver) popDue(now time.Time) *simEvent {
 	d.evMu.Lock()
 	defer d.evMu.Unlock()
 	var due []*simEvent
+	// the gate is asked once per ticker and call: a long stall leaves thousands of
+	// withheld ticks of one ticker in the list, and asking for each of them in
+	// every pass made a run with a 60 s stall of eight workers take minutes
+	var gate map[*SimTicker]bool
 	for _, e := range d.evs {
 		if !e.at.After(now) {
-			if e.tk != nil && d.TickGate != nil && !d.TickGate(e.tk) {
-				continue
+			if e.tk != nil && d.TickGate != nil {
+				open, seen := gate[e.tk]
+				if !seen {
+					if gate == nil {
+						gate = map[*SimTicker]bool{}
+					}
+					open = d.TickGate(e.tk)
+					gate[e.tk] = open
+				}
+				if !open {
+					continue
+				}
 			}
 			due = append(due, e)
 		}
